@@ -239,7 +239,9 @@ CHECKS = {
              "lock and finishing, so no frame of another blocking request can be written while one is in progress; "
              "locks are served strictly first-in first-out; a request not marked blocking never touches the blocking "
              "lock; exclusivity holds in every state under every order of task micro-steps "
-             "(C14_exclusive_any_schedule). Tied by the virtual-time differential, by scenario checks that a non-blocking request is "
+             "(C14_exclusive_any_schedule); first come, first served for whole histories: the lock's queue is always a sub-list "
+             "of the request list and a blocking request issued later is never past the lock while an earlier one still waits "
+             "for it (C14_first_come_first_served, C14_queue_in_issue_order). Tied by the virtual-time differential, by scenario checks that a non-blocking request is "
              "written at once while a blocking one only waits for its response, and by scenarios across a deliberate NCP reset "
              "(real reset() / connect() with failing re-open attempts: requests that outlive the reset still exclude later ones; "
              "reset / reconnect is observed on the implementation only, it is not an event of the model).",
